@@ -293,8 +293,24 @@ def gen_c12_history(rng, nsteps):
         else:
             steps.append(["destroy", h])
             live.discard(h)
-    return {"op": "hist", "kind": "ta", "sym": "raw", "views": True, "universe": RAW_RULES + RAW_NEVER,
-            "vstates": [0, 1, 2, 3, 4, 5], "steps": steps}
+    c = {"op": "hist", "kind": "ta", "sym": "raw", "views": True, "universe": RAW_RULES + RAW_NEVER,
+         "vstates": [0, 1, 2, 3, 4, 5], "steps": steps}
+    if rng.random() < 0.25:
+        # "huge" presentation: some states get numbers beyond 32 bits (the driver maps 10^9 + k to 2^33 + k and back)
+        big = set(q for q in range(6) if rng.random() < 0.5) or {rng.randrange(6)}
+        f = lambda q: q + 10 ** 9 if q in big else q
+        fr = lambda r: [r[0], [f(k) for k in r[1]], f(r[2])]
+        c["universe"] = [fr(r) for r in c["universe"]]
+        c["vstates"] = [f(q) for q in c["vstates"]]
+        for st in steps:
+            if st[0] == "add":
+                st[2] = fr(st[2])
+            elif st[0] == "final":
+                st[2] = f(st[2])
+            elif st[0] == "finals":
+                st[2] = sorted(f(q) for q in st[2])
+        c["huge"] = sorted(big)
+    return c
 
 
 FA_EDGES = [[0, "a", 0], [0, "a", 1], [1, "b", 1], [1, "a", 2], [2, "b", 0], [2, "a", 2], [0, "b", 2]]
